@@ -423,6 +423,60 @@ func init() {
 				}
 			}
 		}
+		// Cmd.Dir set, relative socket path announced: one address from every Start and from ReattachConfig
+		{
+			impl, pred := runLcRelDir()
+			o.emit("!C19.reldir ops=S,S,S,R", impl, pred)
+		}
 		o.note("C19: %d operation sequences (exhaustive up to length %d over 7 ops with a scripted runner, up to %d over {S,C,P,K} with a real process, reattach live/dead up to 3)", len(cases), runnerLen, cmdLen+1)
 	})
+}
+
+// runLcRelDir: Cmd.Dir is set and the plugin announces a RELATIVE unix socket path (its TMPDIR is relative): every
+// successful Start — the launching one and the later ones — and ReattachConfig report one and the same address.
+func runLcRelDir() (impl, pred string) {
+	work := os.Getenv("VERIF_WORK")
+	base := filepath.Join(work, fmt.Sprintf("lc-rel-%d", os.Getpid()))
+	os.MkdirAll(filepath.Join(base, "socks"), 0o755)
+	defer os.RemoveAll(base)
+	cmd := kitCmd(kitServeCfg{Sets: map[string]string{"3": "netrpc"}}, "TMPDIR=socks")
+	cmd.Dir = base
+	client := plugin.NewClient(&plugin.ClientConfig{
+		HandshakeConfig:  kitHandshake(),
+		VersionedPlugins: kitHostSets(map[int]string{3: "netrpc"}, nil, nil),
+		Cmd:              cmd,
+		Logger:           nullLogger(),
+		StartTimeout:     8 * time.Second,
+		SkipHostEnv:      true,
+	})
+	defer func() {
+		withTimeout(10*time.Second, func() error { client.Kill(); return nil })
+		if cmd.Process != nil {
+			cmd.Process.Kill()
+		}
+	}()
+	var addrs []string
+	for i := 0; i < 3; i++ {
+		a, err := client.Start()
+		if err != nil || a == nil {
+			return "start-error", "FAIL:setup-start"
+		}
+		addrs = append(addrs, a.Network()+"/"+a.String())
+	}
+	rc := client.ReattachConfig()
+	if rc == nil || rc.Addr == nil {
+		return "no-reattach-config", "FAIL:no-reattach-config"
+	}
+	addrs = append(addrs, rc.Addr.Network()+"/"+rc.Addr.String())
+	same := true
+	for _, a := range addrs {
+		if a != addrs[0] {
+			same = false
+		}
+	}
+	impl = fmt.Sprintf("same=%s relative=%s", b01(same), b01(!filepath.IsAbs(strings.TrimPrefix(addrs[0], "unix/"))))
+	if !same {
+		return impl + " " + strings.Join(addrs, ","), "FAIL:successful-starts-returned-different-addresses"
+	}
+	return impl, "ok"
 }
